@@ -19,6 +19,7 @@ PID = {
     "K*(892)bar0": -313, "K*(892)0": 313, "rho(770)0": 113, "rho(1450)0": 100113, "omega(782)0": 223, "phi(1020)0": 333,
     "K(1)(1270)bar-": -10323, "K(1)(1270)+": 10323, "K(1)(1400)bar-": -20323, "a(1)(1260)+": 20213, "a(1)(1260)-": -20213,
     "K(2)*(1430)bar-": -325, "K(1460)bar-": -100321,
+    "eta": 221, "pi0": 111, "a(0)(980)0": 9000111, "f(0)(980)0": 9010221, "f(0)(500)": 9000221, "a(1)(1260)0": 20113,
     "PiPi00": 998101, "PiPi10": 988101, "PiPi20": 978101, "PiPi30": 968101, "KPi00": 998111, "KPi10": 988111, "KPi20": 978111,
 }
 
@@ -145,6 +146,7 @@ SPIN = {  # name -> (J, letter)   letter: V vector, A axial, S scalar, T tensor,
     "K*(892)bar0": (1, "V"), "K*(892)0": (1, "V"), "rho(770)0": (1, "V"), "rho(1450)0": (1, "V"), "omega(782)0": (1, "V"), "phi(1020)0": (1, "V"),
     "K(1)(1270)bar-": (1, "A"), "K(1)(1270)+": (1, "A"), "K(1)(1400)bar-": (1, "A"), "a(1)(1260)+": (1, "A"), "a(1)(1260)-": (1, "A"),
     "K(2)*(1430)bar-": (2, "T"), "K(1460)bar-": (0, "s"),
+    "eta": (0, "s"), "pi0": (0, "s"), "a(0)(980)0": (0, "S"), "f(0)(980)0": (0, "S"), "f(0)(500)": (0, "S"), "a(1)(1260)0": (1, "A"),
     "PiPi00": (0, "S"), "PiPi10": (0, "S"), "PiPi20": (0, "S"), "PiPi30": (0, "S"), "KPi00": (0, "S"), "KPi10": (0, "S"), "KPi20": (0, "S"),
 }
 # frozen copy of the table "spin structure -> spin factor(s)" (the definition of "the amplitude's spin factors")
